@@ -133,6 +133,19 @@ def run (t : Tier) : Emit Unit := do
   for _ in [0:200 * t.scale] do
     let v ← liftGen (randField 33); let e ← liftGen (randField 9)
     emit "C12" (durationCase v e)
+  -- (7b) dense: every tick of the first 20000 (quick: 6000), multiples of 9 ticks (the exact duration is a whole number of
+  -- nanoseconds every 9 ticks) from several starting points across the 33-bit range, every extension
+  let rangeCase (start step count ext : Nat) : Case :=
+    let vals := (List.range count).map fun i => ({ base := (start + i * step : Nat), extension := (ext : Nat) } : ClockReference).duration
+    let sp := (List.range count).map fun i => ((start + i * step) * 1000000000 / 90000 + ext * 1000000000 / 27000000 : Nat)
+    { op := "durationRange", args := [("start", jnat start), ("step", jnat step), ("count", jnat count), ("ext", jnat ext)],
+      model := ",".intercalate (vals.map toString), spec := some (",".intercalate (sp.map toString)), tag := "duration-dense" }
+  for b in [0:(if t.quick then 3 else 10)] do
+    emit "C12" (rangeCase (b * 2000) 1 2000 0)
+  for _ in [0:(if t.quick then 4 else 40)] do
+    let k0 ← liftGen (randField 29)
+    emit "C12" (rangeCase (9 * k0) 9 2000 (← liftGen (randField 9)))
+  emit "C12" (rangeCase (8589934592 - 2000) 1 2000 511)
   -- (8) malformed: truncations at every offset of one unit, mutations, random
   let oh ← liftGen (genPESOptionalHeader false 3)
   let h : PESHeader := { optionalHeader := some oh, streamID := 0xbd, packetLength := 0 }
